@@ -173,6 +173,22 @@ def check_t2(chk, m, mu, K):
             wit = "; e.g. a=%d b=%d" % (sum((1 << i) for i in range(32) if a_.get(2 * i)), sum((1 << i) for i in range(32) if a_.get(2 * i + 1)))
         chk.ob("T2.difference", pid, bad == 0, "cyclecmp32(a, b) returns (a - b) mod 2^32 as a signed value for all argument pairs "
                "(got %s)%s" % (fmt(p.ret)[:60], wit), fn.loc, fn.name)
+    # the same for every place where the scheduler itself forms a difference of two times (a local helper, an open-coded
+    # comparison): time values are kernel.now, a fibre's duetime and the public entry points' time arguments
+    for g in m.defined_functions():
+        seeds = set(a.name for a in g.args if a.ty == "i32" and g.arg_names.get(g.args.index(a), "") in ("time", "duetime", "now", "t"))
+        for a in flow.accesses(g, m):
+            if a.kind == "load" and a.inst.ty == "i32" and ((a.struct == "kernel" and a.field == "now") or
+                                                            (a.field or "").split(".")[-1] == "duetime"):
+                seeds.add(a.inst.name)
+        if not seeds:
+            continue
+        bad = nsw_on_time(g, seeds)
+        chk.ob("T2.modular-difference", g.name, not bad,
+               "no signed (overflow-undefined) subtraction or addition of two time values in %s" % g.name if not bad else
+               "two time values are subtracted as SIGNED integers (%s at %s): the overflow is undefined behaviour exactly when the "
+               "counter has wrapped between them, and an optimising compiler turns `(int) a - (int) b <= 0` into the magnitude "
+               "comparison `(int) a <= (int) b`" % (bad[0].op, bad[0].loc), bad[0].loc if bad else g.loc, g.name)
     fn, ps = fib.fn_paths(m, "duetime_cmp")
     chk.note_fn(fn)
     d = K.fibre["duetime"][0] - K.link_off
